@@ -146,11 +146,16 @@ def build_many(jobs):
 DEATHS = []
 
 
-def exit_ok(p, name):
+def exit_ok(p, name, crash_codes=()):
     """0 -> True; killed by a signal -> recorded as a death (what the executor logged before is still
-    judged), False; any other exit code -> broken machinery."""
+    judged), False; any other exit code -> broken machinery. crash_codes: exit codes by which this
+    executor's own fault handler reports a signal (mem / bulk drivers: 11 for a SIGSEGV outside a guarded step)."""
     if p.returncode == 0:
         return True
+    if p.returncode in crash_codes:
+        DEATHS.append({"executor": name, "signal": p.returncode, "stderr": (p.stderr or "")[-300:].strip()})
+        log("[death] %s reported signal %d" % (name, p.returncode))
+        return False
     if p.returncode < 0:
         DEATHS.append({"executor": name, "signal": -p.returncode, "stderr": (p.stderr or "")[-300:].strip()})
         log("[death] %s died on signal %d" % (name, -p.returncode))
